@@ -439,8 +439,12 @@ def nested_defaults(ctx, sut, serial):
 
 
 def description_case(ctx, sut, text, serial, hostile):
+    # (the nested object spells its type in one of the ways a document may: the class must carry the
+    # description whichever route the parser takes)
+    inner_type = ["object", ["object"], ["object", "null"], ["null", "object", "string"]][serial % 4]
     doc = {"type": "object", "title": f"Desc{serial}", "description": text,
-           "properties": {"child": {"type": "object", "title": f"Inner{serial}", "description": text[::-1]}}}
+           "properties": {"child": {"type": inner_type, "title": f"Inner{serial}", "description": text[::-1]}}}
+    ctx.count("descriptions.inner_type." + ("list%d" % len(inner_type) if isinstance(inner_type, list) else "plain"))
     case = {"description": text, "schema": doc}
     ctx.evaluation()
     ctx.count("descriptions")
